@@ -31,7 +31,7 @@ man = {
         "add_only": True,
     },
     "engines": [
-        {"name": "pyvc", "path": "/verif/pyvc", "serves_properties": sorted(p for p in PROPERTY_MAP if PROPERTY_MAP[p].get("pyvc")), "kind_free_text": "verification-condition generator: symbolic execution of the real function ASTs against sidecar contracts (pre/post, loop invariants, ghost folds, lemma instances), discharged by z3 (cvc5 second opinion)"},
+        {"name": "pyvc", "path": "/verif/pyvc", "serves_properties": sorted(PROPERTY_MAP), "kind_free_text": "verification-condition generator: symbolic execution of the real function ASTs against sidecar contracts (pre/post, loop invariants, ghost folds, lemma instances), discharged by z3 (cvc5 second opinion)"},
         {"name": "frames", "path": "/verif/pyvc/frames.py", "serves_properties": sorted(p for p in PROPERTY_MAP if PROPERTY_MAP[p].get("frames")), "kind_free_text": "ownership / typestate / read-set / dtype-flow obligations decided on the AST"},
         {"name": "bounded", "path": "/verif/bounded", "serves_properties": sorted(p for p in PROPERTY_MAP if PROPERTY_MAP[p].get("bounded")), "kind_free_text": "executable contracts on the real public functions over an enumerated small-scope universe with independent oracles; labelled bounded, never counted as proved; also replays solver counterexamples"},
     ],
